@@ -144,6 +144,46 @@ def run(ctx):
                 ctx.count("further_oracle_failures")
             if len(ctx.cov["samples"]) < 6 and ok and b:
                 ctx.sample({"class": s.classes[ci].name, "repr": repr(m)[:300], "bytes": b.hex()[:200]})
+    # ---- second observation of the same objects after an in-place mutation (list append / dict store / assignment inside
+    #      a nested message / plain assignment): len() and dump() must follow the new state, not an earlier walk
+    first_round = list(meta)
+    for si, ci, m in first_round[:: 3 if not ctx.thorough else 1]:
+        s = schemas[si]
+        c = s.classes[ci]
+        cands = [f for f in c.fields if f.card in ("repeated", "map") or (f.card == "plain" and f.elem.kind == "msg")]
+        if not cands:
+            continue
+        f = rng.choice(cands)
+        try:
+            cur = getattr(m, f.name)
+            if f.card == "repeated":
+                cur.append(msggen.gen_elem(s, f.elem, rng, 2))
+                kind = "append"
+            elif f.card == "map":
+                cur[msggen.gen_scalar(f.key.pt, rng)] = msggen.gen_elem(s, f.elem, rng, 2)
+                kind = "dict-store"
+            else:
+                inner = s.classes[f.elem.ref]
+                scal = [g for g in inner.fields if g.card == "plain" and g.elem.kind == "scalar"]
+                if not scal:
+                    continue
+                g = rng.choice(scal)
+                setattr(cur, g.name, msggen.gen_scalar(g.elem.pt, rng))
+                kind = "nested-assign"
+            lit = msggen.obj_literal(s, m)
+            tree = msggen.state_tree(s, m)
+        except (AttributeError, msggen.Unmodellable):
+            continue
+        ctx.count("second-observation:" + kind)
+        exp = cl([outcome(lambda: len(m), cz), outcome(lambda: bytes(m), cb)])
+        pairs.append((f"(let o := {lit} in CL [cv_z_res (len_obj sc{si} o); cv_bytes_res (enc_obj sc{si} o)])", exp))
+        meta.append((si, ci, m))
+        ctx.cov["evaluations"] += 1
+        probs = property_problems(m)
+        if probs:
+            ctx.fail("oracle", f"after len()/bytes() and an in-place {kind} on field {f.name}: {probs[0]}", all_problems=probs,
+                     input={"history": ["construct", "len/bytes/dump", f"in-place {kind} on {f.name}", "len/bytes/dump"],
+                            "schema_spec": msggen.schema_spec(s), "state_after": tree, "repr": repr(m)[:1500]})
     bad = lib.coq_compare(ctx, "c09", IMPORTS, pairs, chunk=120, prelude=prelude)
     for i in sorted(bad, key=lambda i: len(pairs[i][0]))[:3]:
         si, ci, m = meta[i]
